@@ -12,6 +12,7 @@ import (
 	"path"
 	"path/filepath"
 	"strings"
+	"syscall"
 
 	"github.com/emersion/go-webdav/internal"
 )
@@ -66,13 +67,21 @@ func fileInfoFromOS(p string, fi os.FileInfo) *FileInfo {
 }
 
 func errFromOS(err error) error {
+	// Errors which already carry an HTTP status are left alone
+	var httpErr *internal.HTTPError
+	if errors.As(err, &httpErr) {
+		return err
+	}
+
 	// Remove path from path errors so it's not returned to the user
 	var perr *fs.PathError
 	if errors.As(err, &perr) {
 		err = fmt.Errorf("%s: %w", perr.Op, perr.Err)
 	}
 
-	if errors.Is(err, fs.ErrNotExist) {
+	// ENOTDIR means that a parent of the resource is a regular file: the
+	// resource doesn't exist
+	if errors.Is(err, fs.ErrNotExist) || errors.Is(err, syscall.ENOTDIR) {
 		return NewHTTPError(http.StatusNotFound, err)
 	} else if errors.Is(err, fs.ErrPermission) {
 		return NewHTTPError(http.StatusForbidden, err)
